@@ -198,9 +198,9 @@ def cli_case(case, env):
 def check(tier, seed, t0):
     common.build_harness()
     common.build_rg()
-    total = 150 if tier == "quick" else 3000
+    total = 500 if tier == "quick" else 8000
     parts = [("lib", common.run_rgmon("c14", tier, seed)),
-             ("cli", common.run_cli_cases("c03", cli_case, seed, "c14cli", total, 10 if tier == "quick" else 50))]
+             ("cli", common.run_cli_cases("c03", cli_case, seed, "c14cli", total, 32 if tier == "quick" else 100))]
     if tier == "thorough":
         import sanitize
         parts.append(("asan", sanitize.rg_sanitizer_leg("C14", "asan", cli_case, "c03", 80, 5)(tier, seed)))
